@@ -441,6 +441,11 @@ mod worker {
 
                     let stream_h3 = match upgrade {
                         Ok(stream_h3) => stream_h3,
+                        Err(ProtoReadError::H3(ErrorCode::StreamCreation)) => {
+                            // Unknown stream types MUST NOT be considered a connection error.
+                            debug!("Unknown stream type: discarding stream");
+                            return;
+                        }
                         Err(ProtoReadError::H3(error_code)) => {
                             let _ = h3_sender.send(Err(DriverError::Proto(error_code))).await;
                             return;
